@@ -229,45 +229,47 @@ def _inline_nested(fi: FuncInfo, ff, at_stmt, text: str) -> str:
 
 
 def clamp(prog: Program, rep) -> None:
-    """StepResult._compute_xn clamps the new point into [var_lb, var_ub] (two-sided)."""
+    """StepResult._compute_xn clamps the new point into [var_lb, var_ub] (two-sided) on every path."""
     m = prog.func("pygradflow.step.solver.step_solver.StepResult._compute_xn")
     ff = facts_for(m)
-    xn_store = [s for s in ff.order if isinstance(s.stmt, ast.Assign) and any(U(t) == "self.xn" for t in s.stmt.targets)]
-    if len(xn_store) != 1:
-        raise AnalysisError("StepResult._compute_xn: no unique store to self.xn")
-    var = xn_store[0].stmt.value
+    xn_stores = [s for s in ff.order if isinstance(s.stmt, ast.Assign) and any(U(t) == "self.xn" for t in s.stmt.targets)]
+    if not xn_stores:
+        raise AnalysisError("StepResult._compute_xn: no store to self.xn")
     lbq, ubq = "self.orig_iterate.problem.var_lb", "self.orig_iterate.problem.var_ub"
-    if not isinstance(var, ast.Name):
-        v = ff.resolved(xn_store[0].stmt, var)
-        ok = np_call(v, "clip") and len(v.args) == 3 and U(v.args[1]) == lbq and U(v.args[2]) == ubq
-        if not ok and np_call(v, "minimum") and len(v.args) == 2 and np_call(v.args[0], "maximum") and len(v.args[0].args) == 2:
-            ok = U(v.args[1]) == ubq and U(v.args[0].args[1]) == lbq
-        rep.check(ok, "accepted-step-in-box", m.qualname, short(xn_store[0].stmt),
-                  f"the new point is the component-wise clamp of x - dx into [var_lb, var_ub] (found {U(v)[:100]})", m.loc(xn_store[0].stmt))
-        return
-    name = var.id
-    base = None
-    clamps = {"lower": False, "upper": False}
-    for s in ff.order:
-        st = s.stmt
-        if isinstance(st, ast.Assign) and len(st.targets) == 1:
-            t = st.targets[0]
-            if isinstance(t, ast.Name) and t.id == name:
-                base = ff.resolved(st, st.value)
-            if isinstance(t, ast.Subscript) and U(t.value) == name:
-                idx = ff.resolved(st, t.slice)
-                val = ff.resolved(st, st.value)
-                it = U(idx)
-                lb, ub = "self.orig_iterate.problem.var_lb", "self.orig_iterate.problem.var_ub"
-                # xn[xn < lb] = lb[xn < lb]
-                for side, bnd, op in (("lower", lb, "<"), ("upper", ub, ">")):
-                    at = atoms_of(idx, True)
-                    if len(at) == 1:
-                        a = at[0]
-                        hit = (side == "lower" and a[0] == "<" and a[2] == bnd) or (side == "upper" and a[0] == "<" and a[1] == bnd)
-                        if hit and U(val) == f"{bnd}[{it}]":
-                            clamps[side] = True
-    rep.check(clamps["lower"] and clamps["upper"], "accepted-step-in-box", m.qualname, "xn[...] = ...",
-              f"the new point is clamped on both sides against the problem's var_lb / var_ub (found {clamps})", m.loc())
-    rep.check(base is not None and U(base).endswith(".x - dx") or (base is not None and "self.orig_iterate.x - dx" in U(base)), "accepted-step-in-box", m.qualname, "xn = iterate.x - dx",
-              "the clamped point is x - dx of the originating iterate", m.loc())
+    for xs in xn_stores:
+        var = xs.stmt.value
+        if not isinstance(var, ast.Name):
+            v = ff.resolved(xs.stmt, var)
+            ok = np_call(v, "clip") and len(v.args) == 3 and U(v.args[1]) == lbq and U(v.args[2]) == ubq
+            if not ok and np_call(v, "minimum") and len(v.args) == 2 and np_call(v.args[0], "maximum") and len(v.args[0].args) == 2:
+                ok = U(v.args[1]) == ubq and U(v.args[0].args[1]) == lbq
+            rep.check(ok, "accepted-step-in-box", m.qualname, short(xs.stmt),
+                      f"the new point is the component-wise clamp of x - dx into [var_lb, var_ub] (found {U(v)[:100]})", m.loc(xs.stmt))
+            continue
+        name = var.id
+        base = None
+        clamps = {"lower": False, "upper": False}
+        for s in ff.order:
+            if s.index >= xs.index:
+                break
+            st = s.stmt
+            if isinstance(st, ast.Assign) and len(st.targets) == 1:
+                t = st.targets[0]
+                if isinstance(t, ast.Name) and t.id == name:
+                    base = ff.resolved(st, st.value)
+                    clamps = {"lower": False, "upper": False}
+                if isinstance(t, ast.Subscript) and U(t.value) == name and all(f in xs.facts for f in s.facts):
+                    idx = ff.resolved(st, t.slice)
+                    val = ff.resolved(st, st.value)
+                    it = U(idx)
+                    for side, bnd in (("lower", lbq), ("upper", ubq)):
+                        at = atoms_of(idx, True)
+                        if len(at) == 1:
+                            a = at[0]
+                            hit = (side == "lower" and a[0] == "<" and a[2] == bnd) or (side == "upper" and a[0] == "<" and a[1] == bnd)
+                            if hit and U(val) == f"{bnd}[{it}]":
+                                clamps[side] = True
+        rep.check(clamps["lower"] and clamps["upper"], "accepted-step-in-box", m.qualname, short(xs.stmt),
+                  f"on every path the point stored as the new x was clamped on both sides against the problem's var_lb / var_ub before (found {clamps})", m.loc(xs.stmt))
+        rep.check(base is not None and "self.orig_iterate.x - dx" in U(base), "accepted-step-in-box", m.qualname, "xn = iterate.x - dx",
+                  "the clamped point is x - dx of the originating iterate", m.loc())
